@@ -284,6 +284,7 @@ pub fn hostile_parts(tier: Tier) -> Vec<(&'static str, u64, u64, &'static str)> 
         ("hostile/seek", super::c20b::seek_total(), 64, "seek((pos, state)) with every position 0..=len+2 x 10 boundary states on ANS / range decoders over owned, borrowed, consuming, reversed backends"),
         ("hostile/chain", super::c20b::chain_total(), 128, "ChainCoder constructors over word strings of length <= 3 (+ longer) x 10 hostile operation orders (incl. precision changes in the middle of decoding)"),
         ("hostile/model", super::c20b::liar_total(), 256, "user-written EncoderModel / DecoderModel impls that return arbitrary (left cumulative, probability) pairs (all ordered pairs over 7 x 5 boundary values, also pairs that do not fit the precision) and answer every quantile with a constant, at PRECISION 8 and 4, driven through AnsCoder<u8,u16> / <u8,u32>, RangeEncoder / RangeDecoder <u8,u16> / <u8,u32> and ChainCoder<u8,u16>: only memory safety is demanded"),
+        ("hostile/faults", super::c20b::faults_total(), 43, "user-written ReadWords / WriteWords backends that return Err once / from then on / lie once (end of data that is not the end, a dropped word) at every call index 0..14, under RangeEncoder, RangeDecoder, AnsCoder (compressed / binary / raw parts), ChainCoder (3 constructors, Default-constructed second backend faulty as well), bit-level StackCoder / QueueEncoder / QueueDecoder and Exp-Golomb callbacks, each coder used on after the fault"),
         ("hostile/distribution", super::c20b::dist_total(), 64, "user-written Distribution / Inverse impls behind LeakyQuantizer (18 cdf shapes: constants 2 / 1 / 0 / -1 / NaN / +-inf / 1e300, decreasing, steps, sawtooth, zig-zag, unbounded, valid controls; 7 inverse hints) on 8 (Symbol, Probability, PRECISION) configurations x 4 supports: quantile_function at every quantile (P <= 12) or boundary quantiles, left_cumulative_and_probability, symbol_table"),
     ]
 }
@@ -305,6 +306,7 @@ pub fn child(part: &str, from: u64, to: u64) -> i32 {
             "hostile/seek" => super::c20b::seek_program(i, &mut sink),
             "hostile/chain" => super::c20b::chain_program(i, &mut sink),
             "hostile/distribution" => super::c20b::dist_program(i, &mut sink),
+            "hostile/faults" => super::c20b::faults_program(i, &mut sink),
             "hostile/model" => super::c20b::liar_program(i, &mut sink),
             other => { eprintln!("unknown hostile part {other}"); return 2; }
         }
